@@ -14,7 +14,8 @@ def strip_conv(t):
 
 def _is_fresh_dot(t, clock=('field', ('param', 1), 'clock')):
     t = strip_conv(t)
-    return is_call(t, 'inc', self_adt='VClock') and drop_lv(t[2][0]) == clock and versionless(t[2][1])[0] in ('param', 'upvar')
+    # the dot must be the *acting* actor's next dot: the actor argument is a whole parameter of the op constructor
+    return is_call(t, 'inc', self_adt='VClock') and drop_lv(t[2][0]) == clock and versionless(t[2][1])[0] == 'param' and versionless(t[2][1])[1] >= 2
 
 
 @rule('LIST-TAG', {
@@ -42,11 +43,11 @@ def list_tag(ctx):
         d = subst(f.get('dot'), {})
         # upvars of the closure were substituted by inline_option_maps
         dd = strip_conv(f['dot'])
-        ok = is_call(dd, 'inc', self_adt='VClock') and param_path(dd[2][0]) == (1, ('clock',)) and drop_lv(dd[2][0]) == ('field', ('param', 1), 'clock')
+        ok = _is_fresh_dot(f['dot'])
         idt = versionless(f['id'])
         src_ok = any(param_path(st) == (1, ('seq',)) for st in subterms(idt))
         ok = ok and src_ok
-        msg = 'Delete{id: %s, dot: %s}: expected an existing key of seq and self.clock.inc(actor)' % (fmt(idt, 3), fmt(dd, 4))
+        msg = 'Delete{id: %s, dot: %s}: expected an existing key of seq and self.clock.inc(<the acting actor>)' % (fmt(idt, 3), fmt(dd, 4))
     ctx.check(ok, 'delete_index', body, 'dot = self.clock.inc(actor), id = existing key', msg)
     body = facts.body('crdts::list::Op::dot')
     if body is None:
@@ -463,3 +464,88 @@ def id_marker(ctx):
         if st[0] == 'field' and st[2] == '1' and any(is_call(s2, 'last') and param_path(s2[2][0]) == (1, ('0',)) for s2 in subterms(st[1])):
             ok = True
     ctx.check(ok, 'value', vb, 'marker of the last path element', 'Identifier::value() is %s, expected the marker of the last path element' % fmt(r, 5))
+
+
+@rule('ID-BETWEEN', {
+    'C14': 'between(low, high, marker) must be strictly between: the sibling-marker shortcut is sound only for l_m < marker < h_m '
+           '(with <= the result equals or precedes a bound), and a one-node identifier is compared at the first path node, so its '
+           'position must be derived from the first node of the bound',
+    'C12': 'List::append / insert_index allocate identifiers with the one-bound and two-bound forms',
+}, floor=2)
+def id_between(ctx):
+    """Identifier::between: (a) at an equal-position node the marker is appended in place only when it is strictly
+    between the two sibling markers; (b) with a single bound the new position is computed from the first node of that bound."""
+    facts = ctx.facts
+    body = ctx.inherent(IDENT, 'between')
+    it = interp(facts, body)
+    # (a) the push (h_ratio, marker) that keeps the sibling position
+    sib = []
+    for bb, c in it.calls.items():
+        if call_name(c.term) == 'push' and len(c.args) == 2:
+            v = drop_lv(c.args[1].val)
+            if v[0] == 'tuple' and len(v[1]) == 2 and versionless(v[1][1]) == ('param', 3):
+                pos = versionless(v[1][0])
+                if not is_call(pos, 'rational_between') and as_item(pos[1] if pos[0] == 'field' else pos) is not None:
+                    sib.append(bb)
+    if not sib:
+        ctx.ok('sibling-guard', body, 'no in-place sibling shortcut (always forks with a fresh position)', nontrivial=False)
+    else:
+        def side(t):
+            src = as_item(t[1]) if t[0] == 'field' and t[2] == '1' else None
+            if src is None:
+                return None
+            pp = param_path(iter_source(src)[0])
+            return pp[0] if pp else None
+
+        def classify(a, b, t):
+            va, vb = versionless(a), versionless(b)
+            for x, y, orient in ((va, vb, 'fwd'), (vb, va, 'rev')):
+                if y == ('param', 3) and side(x) == 1:
+                    return ('low', orient)       # ord(l_m, marker)
+                if x == ('param', 3) and side(y) == 2:
+                    return ('high', orient)      # ord(marker, h_m)
+            return None
+        fr = None
+        for b2, c2 in sorted(it.calls.items()):
+            if call_name(c2.term) == 'next':
+                fr = iteration_frame(it, b2) or fr
+        res = {}
+        hits = set()
+        for lo in TOTAL:
+            for hi in TOTAL:
+                evr = Evaluator(facts, classify=classify, assumption={'low': lo, 'high': hi})
+                rc = Reach(facts, body, evr)
+                res[(lo, hi)] = any(b in rc.reachable for b in sib)
+                hits |= set(evr.hits)
+        bad = sorted(k for k, v in res.items() if v and k != (LT, LT))
+        errs = []
+        if not {'low', 'high'} <= hits:
+            errs.append('the in-place sibling shortcut is not guarded by comparing the marker with both sibling markers')
+        elif bad:
+            errs.append('the marker is appended at the sibling position when ord(l_m, marker)=%s and ord(marker, h_m)=%s: the result is not '
+                        'strictly between the bounds' % bad[0])
+        elif not res[(LT, LT)]:
+            errs.append('the sibling shortcut is unreachable even for l_m < marker < h_m')
+        ctx.check(not errs, 'sibling-guard', body, 'shortcut only under l_m < marker < h_m', errs[0] if errs else '',
+                  details={'(ord(l_m,marker), ord(marker,h_m)) -> shortcut reachable': {str(k): v for k, v in res.items()}}, props=['C14'])
+    # (b) one-bound position from the first node
+    one = []
+    for bb, c in it.calls.items():
+        if is_call(c.term, 'rational_between') and len(c.args) == 2:
+            a0 = drop_lv(inline_option_maps(facts, c.args[0].val))
+            a1 = drop_lv(inline_option_maps(facts, c.args[1].val))
+            if any(versionless(st) == ('param', 1) for st in subterms(a0)) or any(versionless(st) == ('param', 2) for st in subterms(a1)):
+                if not any(as_item(st) is not None for st in subterms(versionless(a0))):
+                    one.append((bb, a0, a1))
+    if not one:
+        ctx.shape('one-bound', body, 'the single-bound case (rational_between over the bounds\' own positions) was not found')
+    else:
+        bb, a0, a1 = one[0]
+        errs = []
+        for nm, a, p in (('low', a0, 1), ('high', a1, 2)):
+            firsts = [st for st in subterms(a) if is_call(st, ('first',)) or (st[0] == 'field' and st[2] == '[]')]
+            others = [st for st in subterms(a) if is_call(st, ('last', 'nth', 'get', 'iter'))]
+            if not firsts or others:
+                errs.append('with a single bound the %s position is taken from %s, not from the first path node (identifiers are compared from the first node on)'
+                            % (nm, fmt(a, 4)))
+        ctx.check(not errs, 'one-bound', body, 'position derived from the first node of the bound', errs[0] if errs else '', line=block_line(it, bb))
